@@ -105,7 +105,14 @@ class FakeListener:
         self.closed = False
 
     def getsockname(self):
-        return self.name
+        # what the kernel reports for the bound socket, which need not be the text of the bind setting: a host NAME is an
+        # address, an empty host is the wildcard address, port 0 is a port the kernel chose
+        n = self.name
+        if isinstance(n, tuple) and len(n) >= 2:
+            host = {"localhost": "127.0.0.1", "": "0.0.0.0"}.get(n[0], n[0])
+            port = n[1] if n[1] else 40000 + self.fd
+            return (host, port) + tuple(n[2:])
+        return n
 
     def fileno(self):
         return self.fd
